@@ -2,6 +2,7 @@ package evaluator
 
 import (
 	"bytes"
+	"math"
 
 	"github.com/Syuparn/pangaea/object"
 )
@@ -264,6 +265,10 @@ func valRange(
 	elems := []object.PanObject{}
 	for i := start; hasNext(i, stop); i += step {
 		elems = append(elems, valIndex(i))
+		// stop before i+step overflows
+		if (step > 0 && i > math.MaxInt64-step) || (step < 0 && i < math.MinInt64-step) {
+			break
+		}
 	}
 
 	return object.NewPanArr(elems...)
@@ -274,28 +279,30 @@ func canBeUsedForRange(o object.PanObject) bool {
 }
 
 func fixRange(r *object.PanRange, length int64, step int64) (int64, int64) {
+	// ends to which out-of-range bounds are clamped (they depend on the direction)
+	lower, upper := int64(0), length
+	if step < 0 {
+		lower, upper = -1, length-1
+	}
+
 	fix := func(i int64) int64 {
-		if i < -length {
-			return 0
-		}
-		if i > length {
-			return length
-		}
 		if i < 0 {
-			return i + length
+			i += length
+			if i < lower {
+				return lower
+			}
+			return i
+		}
+		if i > upper {
+			return upper
 		}
 		return i
 	}
 
-	var start, stop int64
-
 	// default values
-	if step > 0 {
-		start = 0
-		stop = length
-	} else {
-		start = length - 1
-		stop = -1
+	start, stop := lower, upper
+	if step < 0 {
+		start, stop = upper, lower
 	}
 
 	// update by range value
